@@ -8,7 +8,7 @@ id=sys.argv[1]; d=f"/tmp/wt_{id}"
 tried=[]
 for m in sorted(glob.glob(f'/verif/seeded/{id}_*/meta.json')):
     j=json.load(open(m)); tried.append("  - "+(j.get('summary') or '')[:350])
-t=open('/verif/tools/mutant_prompt2.txt').read().replace('__DIR__',d).replace('PROPERTY_TEXT',open(f'{d}/PROPERTY.txt').read().strip()).replace('"ID"',f'"{id}"').replace('ALREADY_TRIED',"\n".join(tried))
+t=open('/verif/tools/'+os.environ.get('MUTANT_PROMPT','mutant_prompt2.txt')).read().replace('__DIR__',d).replace('PROPERTY_TEXT',open(f'{d}/PROPERTY.txt').read().strip()).replace('"ID"',f'"{id}"').replace('ALREADY_TRIED',"\n".join(tried))
 open(f'/tmp/prompt_{id}.txt','w').write(t)
 PY
 done
